@@ -709,10 +709,36 @@ impl<'tcx> Cx<'tcx> {
                     let nt = tcx
                         .try_normalize_erasing_regions(env, ty::Unnormalized::new_wip(t))
                         .unwrap_or(t);
-                    aliases.push(J::Obj(vec![
-                        ("path", s(self.path(did))),
-                        ("ty", self.ty(nt)),
-                    ]));
+                    let mut o = vec![("path", s(self.path(did))), ("ty", self.ty(nt))];
+                    // Layout of `Adt<CAP>` for a few capacities around the alias's own.
+                    if let ty::Adt(def, args) = nt.kind() {
+                        if args.len() == 1 {
+                            if let Some(c) = args[0].as_const() {
+                                if let Some(n) = c.try_to_target_usize(tcx) {
+                                    let mut rows = Vec::new();
+                                    let fm = TypingEnv::fully_monomorphized();
+                                    let base_align = tcx
+                                        .layout_of(fm.as_query_input(nt))
+                                        .map(|l| l.align.abi.bytes())
+                                        .unwrap_or(1);
+                                    for cap in [n, n + 1, n + base_align, 2 * n + 3] {
+                                        let cargs = tcx.mk_args(&[ty::Const::from_target_usize(tcx, cap).into()]);
+                                        let cty = Ty::new_adt(tcx, *def, cargs);
+                                        if let Ok(l) = tcx.layout_of(fm.as_query_input(cty)) {
+                                            rows.push(J::Arr(vec![
+                                                J::Int(cap as i128),
+                                                J::Int(l.size.bytes() as i128),
+                                                J::Int(l.align.abi.bytes() as i128),
+                                            ]));
+                                        }
+                                    }
+                                    o.push(("adt", s(self.path(def.did()))));
+                                    o.push(("cap_layouts", J::Arr(rows)));
+                                }
+                            }
+                        }
+                    }
+                    aliases.push(J::Obj(o));
                 }
                 DefKind::Const { .. } => {
                     let t = tcx.type_of(did).instantiate_identity().skip_norm_wip();
@@ -728,8 +754,13 @@ impl<'tcx> Cx<'tcx> {
                 }
                 DefKind::Fn | DefKind::AssocFn => {
                     let sig = tcx.fn_sig(did).instantiate_identity().skip_norm_wip().skip_binder();
-                    let ins: Vec<J> = sig.inputs().iter().map(|t| self.ty(*t)).collect();
-                    let out = self.ty(sig.output());
+                    let env = TypingEnv::post_analysis(tcx, did);
+                    let norm = |t: Ty<'tcx>| {
+                        let t = tcx.erase_and_anonymize_regions(t);
+                        tcx.try_normalize_erasing_regions(env, ty::Unnormalized::new_wip(t)).unwrap_or(t)
+                    };
+                    let ins: Vec<J> = sig.inputs().iter().map(|t| self.ty(norm(*t))).collect();
+                    let out = self.ty(norm(sig.output()));
                     let generics = tcx.generics_of(did);
                     let gens: Vec<J> =
                         generics.own_params.iter().map(|p| s(p.name.as_str())).collect();
